@@ -33,8 +33,18 @@
 (*                 are copied before the manifest itself is put            *)
 (*   CpWrite       imageCopyOpt: ManifestPut(tgt) unless equal and not     *)
 (*                 forced; throttleDone (deferred)                         *)
-(*   Fail          an error is returned for this tag, the entry goes on    *)
-(*                 (abortOnErr is off); runOnce joins the errors -> exit 1 *)
+(*   Fault         a request of the run is answered with an error status   *)
+(*                 (round 5): `fault` = [reg, cls, nth, kind, hit] makes   *)
+(*                 the nth request of class cls at registry reg fail.  The *)
+(*                 classes map to the request positions of this automaton  *)
+(*                 (SrcPos / TgtPos); what the code does with the error:   *)
+(*                 RepoList / TagList(source) / ManifestHead(source) /     *)
+(*                 getPlatformDigest / ImageCopy errors are returned and   *)
+(*                 joined (the entry goes on with the next tag, abortOnErr *)
+(*                 is off; runOnce exits 1); a failing TagList(target) in  *)
+(*                 missing mode is only logged (no tag is dropped from the *)
+(*                 list); transient kinds ("500once", "reset1") are retried*)
+(*                 by regclient and change nothing                         *)
 (*   EndRun / Idle the process exits; the observer compares before / after *)
 (*   EnvMove       the environment moves / deletes a source tag between runs *)
 (*   FilterList    filterList: "^(?:" + filter + ")$" (Anchoring = "fixed",*)
@@ -54,7 +64,11 @@
 (* Deliberate deviations: an ImageCopy is two steps (read the source       *)
 (* reference, write the tag) - blobs, child manifests and their order are  *)
 (* C03/C04's subject and every copy is taken to be complete; registry      *)
-(* errors / faults are not modelled (no fault injection in C18); rate limit*)
+(* errors: one scripted fault per run, on the mirror path only (a failing  *)
+(* ManifestHead(target) is read as "absent" and a failing backup copy only *)
+(* warns - both deliberate in the code - so faults on those requests are   *)
+(* not part of the scenario space); referrers requests are not positions   *)
+(* of this automaton; rate limit*)
 (* waiting, hooks, server mode and abortOnErr are left out; tag and        *)
 (* repository lists are one page; referrers are not visible at tag level.  *)
 (* The postconditions are RegSyncDefs!EndBad / OverwriteBad, i.e. exactly  *)
@@ -71,8 +85,11 @@ CONSTANTS Scenarios,   \* sequence of sets of [conf, src, tgt, plan]: src/tgt se
           NameOrder    \* sequence of all tag and repository names in the registry's listing order
 
 VARIABLES conf, plan, world, phase, mode, proc, held, cache, errs,
-          before, puts, nw, exitc, bkbad, nrun
-vars == <<conf, plan, world, phase, mode, proc, held, cache, errs, before, puts, nw, exitc, bkbad, nrun>>
+          before, puts, nw, exitc, bkbad, nrun, fault
+vars == <<conf, plan, world, phase, mode, proc, held, cache, errs, before, puts, nw, exitc, bkbad, nrun, fault>>
+
+\* no fault in this run
+NoF == [reg |-> "", cls |-> "", nth |-> 0, kind |-> "", hit |-> FALSE]
 
 \* tags / repositories no entry names; the driver puts the same content into the model registries
 Bystanders == {<<"tgt", "keep", "v1", "C", 1>>, <<"tgt", "keep", "stable", "X", 1>>,
@@ -133,11 +150,11 @@ Load(s) ==
                \cup {<<"tgt", x[1], x[2], x[3], IF x[3] = "H" THEN 0 ELSE 1>> : x \in s.tgt} \cup Bystanders
   /\ proc' = [k \in DOMAIN s.conf.entries |-> P0]
   /\ phase' = "idle"
-  /\ UNCHANGED <<mode, held, cache, errs, before, puts, nw, exitc, bkbad, nrun>>
+  /\ UNCHANGED <<mode, held, cache, errs, before, puts, nw, exitc, bkbad, nrun, fault>>
 
 Init == /\ phase = "setup" /\ conf = <<>> /\ plan = <<>> /\ world = {} /\ mode = "" /\ proc = <<>>
         /\ held = {} /\ cache = {} /\ errs = {} /\ before = {} /\ puts = {} /\ nw = 0 /\ exitc = 0
-        /\ bkbad = "" /\ nrun = 0
+        /\ bkbad = "" /\ nrun = 0 /\ fault = NoF
 Setup == phase = "setup" /\ \E i \in DOMAIN Scenarios : \E s \in Scenarios[i] : Load(s)
 
 StartRun ==
@@ -145,6 +162,7 @@ StartRun ==
   /\ phase' = "run" /\ mode' = Head(plan).mode /\ plan' = Tail(plan) /\ nrun' = nrun + 1
   /\ before' = world /\ puts' = {} /\ nw' = 0 /\ errs' = {} /\ held' = {} /\ cache' = {} /\ exitc' = 0
   /\ proc' = [k \in DOMAIN proc |-> [P0 EXCEPT !.pc = "start"]]
+  /\ fault' = IF "fault" \in DOMAIN Head(plan) THEN Head(plan).fault ELSE NoF
   /\ UNCHANGED <<conf, world, bkbad>>
 
 EnvMove ==
@@ -152,7 +170,7 @@ EnvMove ==
   /\ LET s == Head(plan) IN
      world' = SetTag(world, <<"src", s.repo, s.tag>>, IF s.op = "del" THEN "" ELSE s.img, 1)
   /\ plan' = Tail(plan)
-  /\ UNCHANGED <<conf, phase, mode, proc, held, cache, errs, before, puts, nw, exitc, bkbad, nrun>>
+  /\ UNCHANGED <<conf, phase, mode, proc, held, cache, errs, before, puts, nw, exitc, bkbad, nrun, fault>>
 
 Begin(k) ==
   /\ MayStep(k) /\ proc[k].pc = "start"
@@ -296,20 +314,61 @@ CpWrite(k) ==
 EndRun ==
   /\ phase = "run" /\ \A k \in DOMAIN proc : proc[k].pc = "done"
   /\ phase' = "ended" /\ exitc' = IF errs = {} THEN 0 ELSE 1
-  /\ UNCHANGED <<conf, plan, world, mode, proc, held, cache, errs, before, puts, nw, bkbad, nrun>>
+  /\ UNCHANGED <<conf, plan, world, mode, proc, held, cache, errs, before, puts, nw, bkbad, nrun, fault>>
 
 Idle ==
   /\ phase = "ended"
   /\ phase' = "idle" /\ mode' = "" /\ before' = {} /\ puts' = {} /\ nw' = 0 /\ exitc' = 0 /\ errs' = {} /\ cache' = {}
   /\ proc' = [k \in DOMAIN proc |-> P0]
+  /\ fault' = NoF
   /\ UNCHANGED <<conf, plan, world, held, bkbad, nrun>>
 
 Finished == phase = "idle" /\ plan = <<>>
 Stop == Finished /\ UNCHANGED vars
 
-Step(k) == \/ Begin(k) \/ Catalog(k) \/ NextRepo(k) \/ Catalog2(k) \/ TagList(k) \/ TgtTags(k) \/ NextTag(k)
+Normal(k) == \/ Begin(k) \/ Catalog(k) \/ NextRepo(k) \/ Catalog2(k) \/ TagList(k) \/ TgtTags(k) \/ NextTag(k)
            \/ HeadSrc(k) \/ HeadTgt(k) \/ Platform(k) \/ Acquire(k) \/ BkRead(k) \/ BkWrite(k)
            \/ CpRead(k) \/ DtWrite(k) \/ CpWrite(k)
+
+\* ------------------------------------------------------------ a scripted fault (round 5)
+\* the request positions of this automaton at which a request of the class is sent: to the source ...
+SrcPos(cls) == CASE cls = "catalog" -> {"catalog", "catalog2"}
+                 [] cls = "tag_list" -> {"taglist"}
+                 [] cls = "manifest_head" -> {"headsrc"}
+                 [] cls = "manifest_get" -> {"platform", "cpread"}
+                 [] cls = "blob_get" -> {"cpread"}
+                 [] OTHER -> {}
+\* ... and to the registry of the entry's target
+TgtPos(cls) == CASE cls = "tag_list" -> {"tgttags"}
+                 [] cls \in {"blob_head", "upload_post", "upload_patch", "upload_put", "manifest_put"} -> {"cpwrite"}
+                 [] OTHER -> {}
+Transient(kind) == kind \in {"500once", "reset1"}
+\* a failing HEAD of a blob at the target is read as "not there": the blob is uploaded, no error
+SoftCls(cls) == cls = "blob_head"
+\* entry k is about to send a request of the faulted class to the faulted registry
+AtFault(k) ==
+  /\ fault.nth >= 1 /\ MayStep(k)
+  /\ \/ fault.reg = "src" /\ proc[k].pc \in SrcPos(fault.cls)
+     \/ fault.reg = Ent(k).treg /\ proc[k].pc \in TgtPos(fault.cls)
+  /\ proc[k].pc = "platform" => proc[k].mSrc \notin cache
+  /\ proc[k].pc = "cpwrite" => (Img(world, TgRef(k)) # proc[k].img \/ Ent(k).force)
+\* what the code does with the error at each position
+Fire(k) ==
+  LET p == proc[k]
+      pc == p.pc
+  IN /\ fault' = [fault EXCEPT !.nth = 0, !.hit = TRUE]
+     /\ Set(k, CASE pc \in {"catalog", "catalog2"} -> [p EXCEPT !.pc = "done", !.sr = "", !.tr = "", !.repos = <<>>]
+                 [] pc = "taglist" -> [p EXCEPT !.pc = AfterTags(k)]
+                 [] pc = "tgttags" -> [p EXCEPT !.pc = "nexttag"]
+                 [] OTHER -> Finish(p, k))
+     /\ errs' = IF pc = "tgttags" THEN errs ELSE errs \cup {k}
+     /\ held' = held \ {k}
+     /\ keepW /\ keepR /\ UNCHANGED cache
+Step(k) == IF AtFault(k)
+           THEN IF fault.nth > 1 THEN Normal(k) /\ fault' = [fault EXCEPT !.nth = @ - 1]
+                ELSE IF Transient(fault.kind) \/ SoftCls(fault.cls) THEN Normal(k) /\ fault' = [fault EXCEPT !.nth = 0, !.hit = TRUE]
+                ELSE Fire(k)
+           ELSE Normal(k) /\ UNCHANGED fault
 Next == \/ Setup \/ StartRun \/ EnvMove \/ EndRun \/ Idle \/ Stop
         \/ \E k \in DOMAIN proc : Step(k)
 Spec == Init /\ [][Next]_vars /\ WF_vars(Next)
